@@ -4,6 +4,8 @@ From Coq.Strings Require Import Byte.
 From Gopki.Model Require Import Bytes Base64 Pem Der Asn1 Text Algs Glue Pkcs8 Ext Rdn Time X509 Generate HashView Dir Plan Run Ops Cli Merge Validate Current.
 From Gopki.Spec Require Import RegenSpec DirInv MergeSpec ValidateSpec X509Spec ExtSpec AdmissionSpec PolicySpec.
 From Gopki.Proofs Require Import RunProofs ExtProofs PlanProofs WfProofs X509Proofs DerProofs Asn1Proofs TimeRangeProofs RdnProofs GenerateProofs ValidateProofs TimeProofs AlgsProofs Base64Proofs PolicyProofs MergeProofs CliProofs OpsProofs FaultProofs HistoryProofs HashViewProofs Pkcs8Proofs RecoverProofs PemTornProofs AdmissionProofs PemProofs GlueProofs.
+From Gopki.Model Require Import Effective.
+From Gopki.Proofs Require Import EffectiveProofs WritesProofs.
 Import ListNotations.
 
 (* Validate accepts exactly the documented subjects and returns the subject unchanged *)
@@ -22,3 +24,28 @@ Theorem C09_rejected_aborts_plan :
     forest es -> (exists e : ent, In e es /\ g_valid (e_cfg e) = false) -> plan cur_csr es s = None.
 Proof. exact plan_invalid. Qed.
 Print Assumptions C09_rejected_aborts_plan.
+
+(* on whole configurations: an entity is rejected exactly when its subject does not parse or violates the documented rule *)
+Theorem C09_rejects_iff :
+  forall (pr : profile) (c : cert_cfg),
+    effective (Some pr) c = None <->
+    parse_rdn (cc_subject c) = None \/ exists subj, parse_rdn (cc_subject c) = Some subj /\ validate_subject pr subj = false.
+Proof. exact effective_rejects_iff. Qed.
+Print Assumptions C09_rejects_iff.
+
+Theorem C09_subject_rule :
+  forall (pr : profile) (subj : list rdn),
+    validate_subject pr subj = true <->
+    accepts (list Z) (match pr_attrs pr with
+                      | None => None
+                      | Some l => Some (map (fun a => mkPattr (list Z) (resolve_attr (fst a)) (snd a)) l)
+                      end) (pr_allow_other pr) (map r_type subj).
+Proof. exact validate_subject_is_the_rule. Qed.
+Print Assumptions C09_subject_rule.
+
+(* a rejected entity stops the run with an error before anything is generated: the directory is exactly what it was *)
+Theorem C09_rejected_run_writes_nothing :
+  forall (d : dir) (s : strat) (fault : option (nat * outcome)),
+    plan cur_csr (d_ents d) s = None -> exists r, run cur_csr cur_nilcert d s fault = (r, d, []) /\ r = RErr.
+Proof. exact (rejected_entity_changes_nothing cur_csr cur_nilcert). Qed.
+Print Assumptions C09_rejected_run_writes_nothing.
